@@ -110,9 +110,16 @@ R6  equation conformance (T-ALG): the value every BADA-3 formula method returns 
     with `aircraft_parameters.engine_type` bound to that string (partial
     evaluation over the CFG: if/elif, guard clauses, `match` with literal /
     or-patterns, dict of classes with [] / .get, conditional expressions, try /
-    except KeyError, string methods); the value left in `self.engine_model`
-    must be an instance of that type's model built from the model's own
-    parameter object.
+    except KeyError, string methods; a `for` over a sequence whose items are
+    known - a display of (name, class) pairs, a table or its items() / keys() /
+    values(), enumerate / zip / reversed of those - walked item by item with
+    break / continue / else / early return, a counting `while`, a comprehension
+    or next(generator, default) over such a sequence, tuple indexing; calls of
+    the package's own functions, static / class methods and of methods of the
+    same object whose definition no subclass replaces are followed with the
+    arguments bound, stores to self.* carried back); the value left in
+    `self.engine_model` must be an instance of that type's model built from the
+    model's own parameter object.
 """
 
 from __future__ import annotations
@@ -2167,9 +2174,13 @@ class _Inst:
 
 _UNKNOWN = object()
 _STR_METHODS = ('lower', 'upper', 'strip', 'casefold', 'title', 'capitalize')
+_SEQ_BUILTINS = ('list', 'tuple', 'dict', 'enumerate', 'zip', 'reversed', 'iter', 'next', 'len')
 
 # exception classes a failed table lookup raises, with the handler names that catch them
 _CATCHES = {'KeyError': {'KeyError', 'LookupError', 'Exception', 'BaseException'},
+            'IndexError': {'IndexError', 'LookupError', 'Exception', 'BaseException'},
+            'ValueError': {'ValueError', 'Exception', 'BaseException'},
+            'StopIteration': {'StopIteration', 'Exception', 'BaseException'},
             'AttributeError': {'AttributeError', 'Exception', 'BaseException'}}
 
 
@@ -2185,6 +2196,9 @@ class _Specialiser:
         self.env = dict(env)
         self.g = _cfg(fi.node)
         self.subjects = {}
+        self.depth = 0
+        self.iters = {}       # `for` node -> the items still to come
+        self._bodies = {}     # `for` node -> ids of the syntax inside its body
 
     # -- values
     def _global(self, name):
@@ -2265,6 +2279,15 @@ class _Specialiser:
                 if k in d:
                     return d[k]
                 raise _Raised('KeyError')
+            if isinstance(d, tuple) and isinstance(k, int) and not isinstance(k, bool):
+                if -len(d) <= k < len(d):
+                    return d[k]
+                raise _Raised('IndexError')
+            return _UNKNOWN
+        if isinstance(e, ast.BinOp) and isinstance(e.op, (ast.Add, ast.Sub, ast.Mult)):
+            a, b = self.val(e.left), self.val(e.right)
+            if all(isinstance(x, int) and not isinstance(x, bool) for x in (a, b)):
+                return a + b if isinstance(e.op, ast.Add) else a - b if isinstance(e.op, ast.Sub) else a * b
             return _UNKNOWN
         if isinstance(e, ast.IfExp):
             return self.val(e.body if self.truth(e.test) else e.orelse)
@@ -2277,8 +2300,42 @@ class _Specialiser:
                 return self.truth(e)
             except _Undecided:
                 return _UNKNOWN
+        if isinstance(e, (ast.ListComp, ast.GeneratorExp, ast.DictComp)):
+            saved = dict(self.env)
+            try:
+                out = self._comprehend(e, 0)
+            except _Undecided:
+                return _UNKNOWN
+            finally:
+                self.env = saved
+            if isinstance(e, ast.DictComp):
+                if any(k is _UNKNOWN or isinstance(k, (_Ref, _Inst, dict, list)) for k, _ in out):
+                    return _UNKNOWN
+                return dict(out)
+            return _UNKNOWN if any(v is _UNKNOWN for v in out) else tuple(out)
         if isinstance(e, ast.Call):
             f = e.func
+            if isinstance(f, ast.Attribute) and f.attr in ('items', 'keys', 'values') and not e.args and not e.keywords:
+                d = self.val(f.value)
+                if isinstance(d, dict):
+                    vs = list(d.items() if f.attr == 'items' else d if f.attr == 'keys' else d.values())
+                    flat = [x for p in vs for x in p] if f.attr == 'items' else vs
+                    return _UNKNOWN if any(x is _UNKNOWN for x in flat) else tuple(vs)
+            if isinstance(f, ast.Name) and f.id in _SEQ_BUILTINS and f.id not in self.env and not e.keywords \
+                    and self.prog.resolve_name(self.fi.module, f.id) is None \
+                    and not any(isinstance(a, ast.Starred) for a in e.args):
+                r = self._seq_builtin(f.id, e.args)
+                if r is not NotImplemented:
+                    return r
+            if isinstance(f, ast.Attribute) and f.attr == 'index' and len(e.args) == 1 and not e.keywords:
+                d = self.val(f.value)
+                if isinstance(d, tuple):
+                    k = self.val(e.args[0])
+                    if k is _UNKNOWN or isinstance(k, _Inst):
+                        return _UNKNOWN
+                    if k in d:
+                        return d.index(k)
+                    raise _Raised('ValueError')
             if isinstance(f, ast.Attribute) and f.attr == 'get' and 1 <= len(e.args) <= 2 and not e.keywords:
                 d = self.val(f.value)
                 if isinstance(d, dict):
@@ -2298,6 +2355,9 @@ class _Specialiser:
                     return getattr(b, f.attr)()
                 if not isinstance(b, _Ref):
                     return _UNKNOWN
+            r = self._open(e)
+            if r is not NotImplemented:
+                return r
             fv = self.val(f)
             if isinstance(fv, _Ref):
                 if any(isinstance(a, ast.Starred) for a in e.args) or any(k.arg is None for k in e.keywords):
@@ -2307,6 +2367,131 @@ class _Specialiser:
                 raise _Raised('TypeError')
             return _UNKNOWN
         return _UNKNOWN
+
+    def _open(self, e):
+        """A call of one of the package's own functions, static / class methods, or of a method of the same object whose
+        definition is the same for every class the object can have: followed with the arguments bound, so a selection
+        moved into a helper (with its own loop, early returns, raises) decides like the inline form.  -> the value
+        returned (stores to self.* carried over) | NotImplemented when the call is not one of these or cannot be
+        followed."""
+        if self.depth >= 3:
+            return NotImplemented
+        f = e.func
+        if isinstance(f, ast.Name) and f.id in self.env or isinstance(f, ast.Attribute) and norm(f) in self.env:
+            return NotImplemented
+        from ..resolve import resolve_call
+        try:
+            callee = resolve_call(self.prog, self.fi, e)
+        except Exception:
+            return NotImplemented
+        if callee is None or callee is self.fi or callee.name in ('__init__', '__post_init__', '__new__') \
+                or not callee.file.startswith('src/') or isinstance(callee.node, ast.AsyncFunctionDef) \
+                or any(isinstance(x, (ast.Yield, ast.YieldFrom)) for x in ast.walk(callee.node)):
+            return NotImplemented
+        decos = {norm(d) for d in callee.node.decorator_list}
+        if decos - {'staticmethod', 'classmethod'}:
+            return NotImplemented
+        bound = callee.cls is not None and 'staticmethod' not in decos
+        own = bound and 'classmethod' not in decos
+        if own:
+            k = self.fi.cls
+            if k is None or self.fi.params[:1] != ['self'] or callee.params[:1] != ['self'] \
+                    or not (isinstance(f, ast.Attribute) and isinstance(f.value, ast.Name) and f.value.id == 'self') \
+                    or any(c.find_method(callee.name) != callee
+                           for c in self.prog.all_classes() if any(b is k for b in c.mro())):
+                return NotImplemented
+        b = bind_args(e, callee.node, bound)
+        if b is None:
+            return NotImplemented
+        given = {id(a) for a in e.args} | {id(kw.value) for kw in e.keywords}
+        sub = _Specialiser(self.prog, callee, {k: v for k, v in self.env.items() if '.' in k})
+        sub.depth = self.depth + 1
+        try:
+            vals = {p: (self.val(a) if id(a) in given else sub.val(a)) for p, a in b.items()}
+            sub.env.update(vals)
+            how, res = sub.run()
+        except _Undecided:
+            return NotImplemented
+        if how == 'raise':
+            raise _Raised(res)
+        if own:
+            for k, v in res.items():
+                if k.startswith('self.'):
+                    self.env[k] = v
+        return res.get('<return>')
+
+    def _is_class(self, name):
+        ms = list(self.prog.modules.values())
+        return any(name in m.classes for m in ms) and not any(name in m.functions for m in ms)
+
+    def _sequence(self, e):
+        """the items a `for` over `e` visits, in order, when `e` is a known finite sequence"""
+        if isinstance(e, (ast.Set, ast.SetComp)):
+            raise _Undecided(f'`{norm(e)[:50]}`: the order a set is visited in is not fixed')
+        v = self.val(e)
+        if isinstance(v, tuple):
+            return list(v)
+        if isinstance(v, dict):
+            if any(x is _UNKNOWN for x in v.values()):
+                raise _Undecided(f'`{norm(e)[:50]}`: the sequence visited is not known')
+            return list(v)
+        raise _Undecided(f'`{norm(e)[:50]}`: the sequence visited is not known')
+
+    def _comprehend(self, e, k):
+        """items of a comprehension (pairs for a dict comprehension), generators from the k-th on"""
+        if k == len(e.generators):
+            if isinstance(e, ast.DictComp):
+                return [(self.val(e.key), self.val(e.value))]
+            return [self.val(e.elt)]
+        gen = e.generators[k]
+        if gen.is_async:
+            raise _Undecided('async comprehension')
+        out = []
+        for item in self._sequence(gen.iter):
+            self._store(gen.target, item)
+            if all(self.truth(c) for c in gen.ifs):
+                out += self._comprehend(e, k + 1)
+        return out
+
+    def _seq_builtin(self, name, args):
+        """list / tuple / dict / enumerate / zip / reversed / next / len over known finite sequences"""
+        def seq(a):
+            try:
+                return self._sequence(a)
+            except _Undecided:
+                return None
+        if name in ('list', 'tuple', 'reversed', 'iter', 'len') and len(args) == 1:
+            xs = seq(args[0])
+            if xs is None:
+                return _UNKNOWN
+            return len(xs) if name == 'len' else tuple(reversed(xs)) if name == 'reversed' else tuple(xs)
+        if name == 'dict' and len(args) == 1:
+            v = self.val(args[0])
+            if isinstance(v, dict):
+                return dict(v)
+            if isinstance(v, tuple) and all(isinstance(p, tuple) and len(p) == 2 and p[0] is not _UNKNOWN
+                                            and not isinstance(p[0], (_Ref, _Inst, dict, list)) for p in v):
+                return dict(v)
+            return _UNKNOWN
+        if name == 'enumerate' and 1 <= len(args) <= 2:
+            xs = seq(args[0])
+            start = self.val(args[1]) if len(args) == 2 else 0
+            if xs is None or not isinstance(start, int) or isinstance(start, bool):
+                return _UNKNOWN
+            return tuple((start + i, x) for i, x in enumerate(xs))
+        if name == 'zip' and args:
+            cols = [seq(a) for a in args]
+            return _UNKNOWN if any(c is None for c in cols) else tuple(zip(*cols))
+        if name == 'next' and 1 <= len(args) <= 2:
+            xs = seq(args[0])
+            if xs is None:
+                return _UNKNOWN
+            if xs:
+                return xs[0]
+            if len(args) == 2:
+                return self.val(args[1])
+            raise _Raised('StopIteration')
+        return NotImplemented
 
     def truth(self, e):
         if isinstance(e, ast.UnaryOp) and isinstance(e.op, ast.Not):
@@ -2331,7 +2516,10 @@ class _Specialiser:
                     r = (left == right) == isinstance(op, ast.Eq)
                 elif isinstance(op, (ast.Is, ast.IsNot)):
                     if isinstance(left, _Inst) or isinstance(right, _Inst):
-                        raise _Undecided(f'`{norm(e)}`: identity of a created object')
+                        # an instance of one of the package's classes is not None; other identities stay open
+                        a, b = (left, right) if isinstance(left, _Inst) else (right, left)
+                        if not (b is None and self._is_class(a.callee)):
+                            raise _Undecided(f'`{norm(e)}`: identity of a created object')
                     same = (left is right) if (left is None or right is None or isinstance(left, bool)
                                                or isinstance(right, bool)) else (left == right)
                     r = same == isinstance(op, ast.Is)
@@ -2342,6 +2530,9 @@ class _Specialiser:
                         r = (left in right) == isinstance(op, ast.In)
                     except TypeError:
                         raise _Undecided(f'`{norm(e)}`') from None
+                elif all(isinstance(x, (int, float)) and not isinstance(x, bool) for x in (left, right)):
+                    r = {ast.Lt: left < right, ast.LtE: left <= right, ast.Gt: left > right,
+                         ast.GtE: left >= right}[type(op)]
                 else:
                     raise _Undecided(f'`{norm(e)}`: ordering comparison')
                 if not r:
@@ -2393,6 +2584,26 @@ class _Specialiser:
             if key is not None:
                 self.env[key] = _UNKNOWN
 
+    def _iterate(self, n, prev):
+        """One visit of a `for` header: a `for` over a sequence whose items are known (a display, a table, its
+        items() / keys() / values(), enumerate / zip / reversed of those) is walked item by item, the target bound to
+        the item, so a table searched by a loop decides like the if/elif chain it replaces.  Reached from inside its
+        own body (fall-through or `continue`) the loop goes on; reached from anywhere else it starts afresh."""
+        s = self.g.nodes[n].stmt
+        if isinstance(s, ast.AsyncFor):
+            raise _Undecided(f'`{self.g.nodes[n].text()[:60]}`: an async loop is not followed')
+        inside = self._bodies.get(n)
+        if inside is None:
+            inside = self._bodies[n] = {id(x) for b in s.body for x in ast.walk(b)}
+        ps = self.g.nodes[prev].stmt if prev is not None else None
+        if not (n in self.iters and ps is not None and id(ps) in inside):
+            self.iters[n] = self._sequence(s.iter)
+        if not self.iters[n]:
+            del self.iters[n]
+            return self._succ(n, 'f')
+        self._store(s.target, self.iters[n].pop(0))
+        return self._succ(n, 't')
+
     def _raise_at(self, n, name):
         """continue in the handler that catches `name`, or leave the function"""
         tgt = [b for b, l in self.g.succ[n] if l == 'e']
@@ -2420,7 +2631,9 @@ class _Specialiser:
         """-> ('return', env) | ('raise', exception name)"""
         g = self.g
         n = g.entry
+        prev = last = None
         for _ in range(limit):
+            prev, last = last, n
             node = g.nodes[n]
             if n == g.exit:
                 return 'return', self.env
@@ -2431,6 +2644,8 @@ class _Specialiser:
                     n = self._succ(n, 'n')
                 elif node.kind == 'test':
                     n = self._succ(n, 't' if self.truth(node.stmt.test) else 'f')
+                elif node.kind == 'iter':
+                    n = self._iterate(n, prev)
                 elif node.kind == 'match':
                     sv = self.val(node.stmt.subject)
                     for c in node.stmt.cases:
@@ -2468,7 +2683,10 @@ class _Specialiser:
                         if s.value is not None:
                             self._store(s.target, self.val(s.value))
                     elif isinstance(s, ast.AugAssign):
-                        self._store(s.target, _UNKNOWN)
+                        cur = ast.copy_location(ast.Name(id=s.target.id, ctx=ast.Load()), s.target) \
+                            if isinstance(s.target, ast.Name) else None
+                        self._store(s.target, _UNKNOWN if cur is None else
+                                    self.val(ast.BinOp(left=cur, op=s.op, right=s.value)))
                     elif isinstance(s, ast.Expr):
                         v = self.val(s.value)
                         # setattr(self, 'name', value) is a store
@@ -2485,7 +2703,7 @@ class _Specialiser:
                             self._store(t, _UNKNOWN)
                     n = self._succ(n, 'n')
                 else:
-                    raise _Undecided(f'`{node.text()[:60]}`: loops and handlers are not followed')
+                    raise _Undecided(f'`{node.text()[:60]}` is not followed')
             except _Raised as r:
                 try:
                     n = self._raise_at(n, r.name)
@@ -2507,7 +2725,8 @@ def _dotted(e):
 def rule_engine_dispatch(ctx):
     """Each engine type receives its own engine model.  Decided by following `create_engine_model` once per engine
     type with `aircraft_parameters.engine_type` bound to that string: whatever the dispatch is written as (if/elif,
-    guard clauses, `match`, a dict of classes, a conditional expression), the value left in `self.engine_model` must be
+    guard clauses, `match`, a dict of classes, a conditional expression, a loop over a table of (name, class) pairs,
+    a selection moved into a helper), the value left in `self.engine_model` must be
     an instance of that type's model class built from `self.aircraft_parameters`."""
     prog = ctx.prog
     m = prog.module(MODEL)
